@@ -483,7 +483,14 @@ def run(project, chk):
             chk.fail("X6", fi.short, f"== {prop!r}", loc, f"no declaration scan for {prop!r} found")
             continue
         lp, x, has_break = picked[prop]
-        chk.check(not has_break and isinstance(x.left, ast.Attribute) and x.left.attr in ("name", "lower_name"), "X6", fi.short, norm_text(x), project.loc(m, x), f"the last `{prop}` declaration of the rule wins",
+        try:
+            lo = org.at(x.left)
+        except KeyError:
+            lo = ("expr", norm_text(x.left))
+        tvar = lp["stmt"].target.id if isinstance(lp["stmt"].target, ast.Name) else None
+        # what is compared with the property name is the loop's current declaration's name (directly or through a temporary)
+        name_ok = lo[0] == "attr" and lo[2] in ("name", "lower_name") and lo[1][0] == "elem"
+        chk.check(not has_break and name_ok, "X6", fi.short, norm_text(x), project.loc(m, x), f"the last `{prop}` declaration of the rule wins",
                   how="overwrite idiom in a loop over all declarations, no break", message=f"the scan for `{prop}` stops early or does not compare the declaration name: an earlier declaration wins")
     for prop in ("color", "background-color"):
         if prop not in picked:
